@@ -187,6 +187,11 @@ def replay(col, item):
             if seq % 5 == 4 and known and fault != "mktmpfile":
                 dtarget = os.path.join(work, "out", "explicit.tmp")
                 kw = {"target": dtarget}
+                if seq % 10 == 9:
+                    # a LONGER file already sits at the explicit target path ("this file will be overwritten")
+                    with open(dtarget, "wb") as f:
+                        f.write(b"x" * (len(data) + 100))
+                    conf["explicit_target_existed"] = True
             try:
                 with U.decompress(target, **kw) as name:
                     yielded = name
@@ -276,11 +281,15 @@ def roundtrip(col, item):
     work = tempfile.mkdtemp(prefix="verif-c12-")
     try:
         base = {"plain": "file", "dots": "a.b.c.nc", "suffixchars": {"zip": "temp.p", "gz": "log.gz", "bz2": "b2", "xz": "x.x"}[fmt],
-                "uppercase": "DATA", "mixedcase": "map.v2"}[naming]
+                "uppercase": "DATA", "mixedcase": "map.v2", "bare-format-name": "", "dot-format-name": ""}[naming]
         # an upper- or mixed-case suffix is either a compression suffix or it is not: the name is passed through untouched
         # or a genuine archive is stored -- in both readings the bytes come back and exactly one file is left
         suffix = fmt.upper() if naming == "uppercase" else fmt.capitalize() if naming == "mixedcase" else fmt
         target = os.path.join(work, base + "." + suffix)
+        if naming == "bare-format-name":
+            target = os.path.join(work, fmt)              # a file called "gz" / "zip": no suffix at all
+        elif naming == "dot-format-name":
+            target = os.path.join(work, "." + fmt)        # ".gz": a hidden file without a suffix (os.path.splitext)
         with U.compress(target, tmpdir=work) as name:
             with open(name, "wb") as f:
                 f.write(data)
@@ -290,7 +299,7 @@ def roundtrip(col, item):
         rep = {"abstract": {"mode": "roundtrip", "fault": "none"}, "concrete": {"format": fmt, "content": cname, "naming": naming}}
         if back != data:
             col.violation("roundtrip-content-" + fmt, dict(rep, observed=len(back)))
-        if naming in ("uppercase", "mixedcase") and os.path.exists(target):
+        if naming in ("uppercase", "mixedcase", "bare-format-name", "dot-format-name") and os.path.exists(target):
             raw = open(target, "rb").read()
             genuine = False
             try:
@@ -376,7 +385,7 @@ def run(ctx):
                     seq += 1
                     items.append((c, fmt, cname, naming, seq))
     pmap(ctx, replay, items)
-    pmap(ctx, roundtrip, [(f, c, n) for f in FORMATS for c in CONTENTS for n in ("plain", "dots", "suffixchars", "uppercase", "mixedcase")])
+    pmap(ctx, roundtrip, [(f, c, n) for f in FORMATS for c in CONTENTS for n in ("plain", "dots", "suffixchars", "uppercase", "mixedcase", "bare-format-name", "dot-format-name")])
     pmap(ctx, nested, FORMATS, procs=1)
     ctx.traces += len(items)
     ctx.sample({"terminal_state": cases[3], "replayed_as": {"format": "gz", "content": "chunks", "naming": "dots"}})
